@@ -1379,7 +1379,7 @@ func ruleR13_6(w *World, r *Report) {
 	for _, bits := range []string{"S", "S|C"} {
 		k := bits + ",caseAllMatchedSubscribed"
 		got := table[k]
-		r.Check(got == "subscribe", "processSubscribeOrCreate/("+k+") retried subscription", pos[k], got,
+		r.Check(got == "subscribe" || strings.HasPrefix(got, "differs:subscribe|"), "processSubscribeOrCreate/("+k+") retried subscription", pos[k], got,
 			"outcome is '"+got+"': the retried request goes on as an ordinary push-pull under the requester's own DUID - nothing is pulled, the response carries the wrong DUID, and the subscriber's operations are stored under that DUID while the real datatype's end of log is advanced")
 	}
 }
